@@ -142,8 +142,8 @@ pub fn span_end_line<'tcx>(tcx: TyCtxt<'tcx>, sp: Span) -> i128 {
 
 pub fn scalar_of_const<'tcx>(tcx: TyCtxt<'tcx>, did: DefId) -> J {
     // only non-generic consts
-    let generics = tcx.generics_of(did);
-    if generics.count() != 0 {
+    // lifetime-only generics are fine; type/const generics are not evaluable
+    if tcx.generics_of(did).requires_monomorphization(tcx) {
         return J::Null;
     }
     match tcx.const_eval_poly(did) {
